@@ -25,7 +25,7 @@ RULE = ("cases: routes = 5 solver classes x {forest, De Moor} x gamma in {0,1e-9
 ASSUMPTIONS = ["bit equality of results is required within one process/platform",
                "the float32 README-order behaviour is a listed known finding (problem-built-before-x64), recognised "
                "only by its dtype signature"]
-MIN_DECIDING = {"quick": 150, "thorough": 400}
+MIN_DECIDING = {"quick": 150, "thorough": 280}
 SHARD_TIMEOUT = {"quick": 1800, "thorough": 7200}
 TARGET_SHARDS = {"quick": 48, "thorough": 96}
 
@@ -38,9 +38,15 @@ PROBLEMS = [("forest", dict(S=4, r1=4.0, r2=2.0, p=0.1)),
                                useful_life_at_arrival_distribution_c_0=[1.0],
                                useful_life_at_arrival_distribution_c_1=[0.5]))]
 
+_UP = float(np.nextafter(1.0, 2.0))
+_DOWN = float(np.nextafter(1.0, 0.0))
 SOLVER_REJECTS = [
     ("gamma", -0.1, ["vi", "pi", "per", "sa"]), ("gamma", 1.1, ["vi", "pi", "per", "sa"]),
     ("gamma", 0.99, ["rvi"]), ("gamma", 0.0, ["rvi"]),
+    # just outside the documented domains
+    ("gamma", _UP, ["vi", "pi", "per", "sa", "rvi"]), ("gamma", -1e-12, ["vi", "pi", "per", "sa"]),
+    ("gamma", _DOWN, ["rvi"]), ("gamma", 1 - 1e-12, ["rvi"]), ("gamma", 1 + 1e-10, ["rvi"]),
+    ("epsilon", -1e-300, SOLVERS), ("max_eval_iter", -1, ["pi"]),
     ("epsilon", 0.0, SOLVERS), ("epsilon", -1e-3, SOLVERS),
     ("max_batch_size", 0, SOLVERS), ("max_batch_size", -1, SOLVERS),
     ("period", 0, ["per"]), ("period", -2, ["per"]), ("period@gamma1", 1, ["per"]),
